@@ -1,4 +1,6 @@
-import EgglogVerif.Model.EGraph
+import EgglogVerif.Lemmas.EGraphSub
+import EgglogVerif.Lemmas.EGraphFix
+import EgglogVerif.Props.C01
 /-
 C13 — Subsumed rows stop matching, forever; deleted rows are gone (model level).
 -/
@@ -8,9 +10,7 @@ namespace EgglogVerif.EGraph
 under re-insertion of the same tuple and under the merge of a subsumed row with a congruent
 non-subsumed one, in either order, for every merge behaviour. -/
 theorem C13_sticky (g : EG) (d : Decl) (cur new : Row) :
-    (mergeRows g d cur new).2.sub = (cur.sub || new.sub) := by
-  unfold mergeRows
-  cases d.merge <;> simp <;> split <;> rfl
+    (mergeRows g d cur new).2.sub = (cur.sub || new.sub) := mergeRows_sub g d cur new
 
 /-- canonicalising a row (what every rebuild pass does) never touches the flag -/
 theorem C13_rebuild_keeps_flag (g : EG) (d : Decl) (r : Row) : (g.canonRow d r).sub = r.sub := rfl
@@ -64,5 +64,128 @@ theorem C13_check_sees (g : EG) (s : Subst) (f : Nat) (args : List Tm) (out : Tm
 theorem C13_delete_local (rows : List Row) (k : List Int) (r : Row) :
     r ∈ rows.filter (·.args != k) ↔ r ∈ rows ∧ r.args ≠ k := by
   simp [List.mem_filter]
+
+/-! ### forever: the flag through every later operation of the whole database -/
+
+/-- **Once subsumed, subsumed forever.**  `SubInv g S`: every (table, key) of `S` has a stored row,
+for a key equal to it modulo the current equalities, that carries the flag.  It is preserved by
+every sequence of unions, row insertions (re-insertion of the same tuple included), constructor
+calls and rebuild passes. -/
+theorem C13_forever {S : List (Nat × List Int)} : ∀ (ops : List GOp) {g : EG}, SubInv g S →
+    SubInv (ops.foldl GOp.apply g) S := by
+  intro ops
+  induction ops with
+  | nil => intro g i; exact i
+  | cons op ops ih =>
+    intro g i
+    refine ih ?_
+    cases op with
+    | union a b => exact i.union a b
+    | insert f r => exact i.insertRow f r
+    | create f args => exact i.lookupOrCreate f args
+    | rebuildPass => exact i.rebuildPass
+
+theorem SubInv.err {g : EG} {S} (i : SubInv g S) : SubInv { g with err := true } S :=
+  i.congr i.wf (fun _ => rfl) rfl rfl
+
+/-- … and by every action of a rule head or top-level command other than `delete`. -/
+theorem C13_forever_actions {S : List (Nat × List Int)} {acc : EG × Subst} (i : SubInv acc.1 S) (a : Action)
+    (hnd : NoDelete a) : SubInv (runAction acc a).1 S := by
+  cases a with
+  | call dst f args =>
+    simp only [runAction]
+    cases args.mapM (evalTm acc.2) with
+    | none => exact i.err
+    | some vs => exact i.lookupOrCreate f vs
+  | prim dst op args =>
+    simp only [runAction]
+    cases args.mapM (evalTm acc.2) with
+    | none => exact i.err
+    | some vs =>
+      simp only
+      cases primEval op vs with
+      | none => exact i.err
+      | some v => exact i
+  | union x y =>
+    simp only [runAction]
+    cases evalTm acc.2 x with
+    | none => exact i.err
+    | some vx =>
+      cases evalTm acc.2 y with
+      | none => exact i.err
+      | some vy => exact i.union vx vy
+  | set f args v =>
+    simp only [runAction]
+    cases args.mapM (evalTm acc.2) with
+    | none => exact i.err
+    | some vs =>
+      cases evalTm acc.2 v with
+      | none => exact i.err
+      | some x => exact i.insertRow f _
+  | subsume f args =>
+    simp only [runAction]
+    cases args.mapM (evalTm acc.2) with
+    | none => exact i.err
+    | some vs =>
+      simp only
+      cases lookupRow (acc.1.table f) vs with
+      | some r => exact i.insertRow f _
+      | none => exact (i.lookupOrCreate f vs).insertRow f _
+  | delete f args => exact absurd hnd (by simp [NoDelete])
+  | panic => exact i.err
+
+theorem lookupRow_args {rows : List Row} {args : List Int} {r : Row} (h : lookupRow rows args = some r) :
+    r.args = args := by
+  unfold lookupRow at h
+  have := List.find?_some h
+  simpa using this
+
+/-- inserting a flagged row into a declared table establishes the flag for its key -/
+theorem subImg_insertRow {g : EG} (f : Nat) (r : Row) (hf : f < g.tables.size) (hs : r.sub = true) :
+    SubImg (g.insertRow f r) f r.args := by
+  obtain ⟨y', hy', e1, e2⟩ := insertInto_sub (g.decl f) (g.table f) g r r List.mem_cons_self hs
+  refine ⟨y', ?_, by rw [e1], e2⟩
+  show y' ∈ EG.table (EG.setTable _ f _) f
+  have s3 : (insertInto g (g.decl f) (g.table f) r).1.tables.size = g.tables.size := by
+    have := insertInto_tables_size (g.decl f) (g.table f) g r
+    exact this
+  rw [setTable_table, if_pos ⟨rfl, by rw [s3]; exact hf⟩]; exact hy'
+
+/-- **`(subsume (f args))` establishes the flag** for the key it names (whether or not the row
+existed), and keeps every earlier one. -/
+theorem C13_subsume {S : List (Nat × List Int)} {acc : EG × Subst} (i : SubInv acc.1 S) (f : Nat) (args : List Tm)
+    (vs : List Int) (hv : args.mapM (evalTm acc.2) = some vs) (hf : f < acc.1.tables.size) :
+    SubInv (runAction acc (.subsume f args)).1 ((f, vs) :: S) := by
+  have hold := C13_forever_actions i (.subsume f args) (by simp [NoDelete])
+  refine ⟨hold.wf, fun p hp => ?_⟩
+  simp only [List.mem_cons] at hp
+  rcases hp with rfl | hp
+  · simp only [runAction, hv]
+    cases hl : lookupRow (acc.1.table f) vs with
+    | some r =>
+      simp only
+      have := subImg_insertRow (g := acc.1) f { r with sub := true } hf rfl
+      have hra : r.args = vs := lookupRow_args hl
+      rw [← hra]
+      exact this
+    | none =>
+      simp only
+      have hsz : f < (acc.1.lookupOrCreate f vs).1.tables.size := by
+        rw [lookupOrCreate_tables_size]; exact hf
+      exact subImg_insertRow (g := (acc.1.lookupOrCreate f vs).1) f ⟨vs, (acc.1.lookupOrCreate f vs).2, true⟩ hsz rfl
+  · exact hold.sub p hp
+
+/-- **In a canonical database the one stored row for a subsumed key carries the flag** — so
+(`C13_nomatch`) no rule matches it and (`C07_subsumed_ignored`) extraction ignores it, while
+`check` (`C13_check_sees`) still sees it and it still takes part in congruence (`C01_complete`
+is indifferent to the flag). -/
+theorem C13_canonical_row {g : EG} {S : List (Nat × List Int)} (i : SubInv g S) (c : Canonical g)
+    (f : Nat) (args : List Int) (hm : (f, args) ∈ S) (y : Row) (hy : y ∈ g.table f)
+    (hk : y.args = canonArgs g (g.decl f).argIsId args) : y.sub = true := by
+  obtain ⟨y', hy', e1, e2⟩ := i.sub (f, args) hm
+  have c1 := (c.rows f y' hy').1
+  unfold ArgsCanon at c1
+  have : y' = y := uniqueKeys_eq (c.keys f) hy' hy (by rw [← c1, e1, hk])
+  rw [← this]; exact e2
 
 end EgglogVerif.EGraph
